@@ -176,7 +176,8 @@ def run(ctx):
         what = {"outcome": "the parser must return a query or an error (Parser.tla AllowedOutcomes)",
                 "crash": "the driver process died or a call did not return inside a parser entry point",
                 "truth table": "the returned AST does not select the documents the written expression denotes",
-                "returned tree": "the returned AST is not a tree over the atoms of the expression"}.get(
+                "returned tree": "the returned AST is not a tree over the atoms of the expression",
+                "parsers disagree": "ParseQuery and ParseSeqQL return different terms for the same text"}.get(
                     m.get("what"), m.get("what", ""))
         if m.get("what") == "returned tree":
             what += " (%s)" % m.get("got")
